@@ -1,4 +1,5 @@
 import CalicoVerif.Proofs.C36Hist
+import CalicoVerif.Proofs.C36V6
 /-!
 C36 — CIDR trie lookups agree with plain prefix arithmetic.
 
@@ -163,6 +164,19 @@ theorem lookupPath_eq_spec {t : Node α} (hi : t.Inv W) {q : Pfx} (hq : q.WF W) 
   unfold lookupPath
   rw [lookupPathGo_spec hi hq]
   simp [SMap.path]
+
+/-- **IPv6 arithmetic**: `V6CommonPrefix` as written (two `uint64` halves, shifts by ≥ 64
+giving 0, unmasked high half when the prefix is short) equals the width-128 common prefix
+that the trie theorems are about, for all masked CIDRs. -/
+theorem v6CommonPrefix_eq_generic {a b : Pfx} (ha : a.WF 128) (hb : b.WF 128) :
+    v6CommonPrefix a b = commonPrefix 128 a b := v6CommonPrefix_eq ha hb
+
+/-- **IPv6 arithmetic**: `ContainsV6` as written (two halves) equals the width-128 `Contains`. -/
+theorem v6Contains_eq_generic {c : Pfx} {a : Nat} (hc : c.addr < 2 ^ 128) (ha : a < 2 ^ 128) :
+    v6Contains c a = c.contains 128 a := v6Contains_eq hc ha
+
+/-- **IPv6 arithmetic**: `V6Addr.NthBit` as written (two halves) equals the width-128 `NthBit`. -/
+theorem v6NthBit_eq_generic (a n : Nat) : v6NthBit a n = nthBit 128 a n := v6NthBit_eq a n
 
 /-! ### non-vacuity -/
 
